@@ -218,3 +218,9 @@ def SelAcq(sel, G, n, x, N):
 def PartnerSum(a, b, n):
     # sum over l < n of b[l] * a[partner(l)], partner(l) = l + 1 for even l (X_i <-> Z_i), l - 1 for odd l
     return 0 if n <= 0 else PartnerSum(a, b, n - 1) + b[n - 1] * (a[n] if (n - 1) % 2 == 0 else a[n - 2])
+
+
+@spec('int1', 'int')
+def XZPartial(g, n):
+    # sum over odd positions l < n of g[l] * g[l-1]: the x.z products of the qubits completely below position n
+    return 0 if n <= 0 else XZPartial(g, n - 1) + (g[n - 1] * g[n - 2] if (n - 1) % 2 == 1 else 0)
